@@ -31,13 +31,18 @@
     long, is always reported; this includes a read lying inside an 'anywhere' adapter.  (The two types that
     must end at the end of the read, anchored and non-internal 3', are covered by the with-indels clause.)
 
-    NOT proved here (C02 is partial in this respect): the three cut-position clauses, and that the k-mer
-    prefilter lets such reads through (C07; proved there for matches covering the whole adapter).
+    That the k-mer prefilter lets all such reads through is C07_no_change (proved in full); its
+    consequence for this property is C02_found_is_reported: whatever the aligner finds is what match_to with
+    its prefilter reports.
+
+    NOT proved here (C02 is partial in this respect): the three cut-position clauses (regular 3' adapter cut
+    at or before the leftmost exact copy, regular 5' at or before its end, 'rightmost').  They rest on the
+    correspondence and on the cut-position oracle run against the implementation.
     Those rest on the correspondence (model = implementation for prefiltered match_to of all eight
     classes) and on the planted-occurrence / brute-force / cut-position oracle run against the
     implementation. *)
 From Coq Require Import ZArith List Bool Lia.
-From CV Require Import Generated.Scores Model.Align Model.Adapters Model.Kmer Proofs.AdapterProofs Proofs.KmerProofs Proofs.AlignDist Proofs.AlignOpt Proofs.AlignComplete Proofs.AlignFound Proofs.AlignCopyGen.
+From CV Require Import Generated.Scores Model.Align Model.Adapters Model.Kmer Proofs.AdapterProofs Proofs.KmerProofs Proofs.AlignDist Proofs.AlignOpt Proofs.AlignComplete Proofs.AlignFound Proofs.AlignCopyGen Proofs.KmerComplete Proofs.KmerOverlap.
 Import ListNotations.
 Open Scope Z_scope.
 
@@ -151,6 +156,15 @@ Theorem C02_copy_found : forall thr ad read rs p L,
   match_to thr ad read <> None.
 Proof. exact match_to_copy_found. Qed.
 Print Assumptions C02_copy_found.
+
+(** "a match is reported" refers to match_to as the adapter classes run it, prefilter included (C07) *)
+Theorem C02_found_is_reported : forall thr ad read,
+  thr 0 = 0 -> (forall i, 0 <= i < zlen (a_seq ad) -> thr i <= thr (i + 1) <= thr i + 1) ->
+  (forall i, 1 <= i <= zlen (a_seq ad) -> thr i < i) -> (forall L, thr L <= thr (zlen (a_seq ad))) ->
+  ascii (a_seq ad) -> ascii read -> 1 <= a_min_overlap ad -> zlen (a_seq ad) < INDEL_COST_OFF ->
+  match_to thr ad read <> None -> match_to_prefiltered thr ad read <> None.
+Proof. exact found_is_reported. Qed.
+Print Assumptions C02_found_is_reported.
 
 (** non-vacuity: ^ACGT against ACGTTT with zero errors allowed is removed exactly *)
 Example C02_exact_anchored :
